@@ -599,6 +599,10 @@ EB_API EbErrorType svt_av1_dec_frame(EbComponentType *svt_dec_component, const u
                                    (EB_ErrorNone == return_error) ? 1 : 0,
                                    dec_handle_ptr->frame_header.refresh_frame_flags);
 
+        /* a failed parse does not advance data_start: report the error instead of decoding the same bytes forever */
+        if (return_error != EB_ErrorNone)
+            break;
+
         // Allow extra zero bytes after the frame end
         while (data < data_end) {
             const uint8_t marker = data[0];
